@@ -91,6 +91,25 @@ def neg_candidates(files):
     return out
 
 
+def const_candidates(files):
+    """Each decimal literal n in a code line -> n + 1 (not in tables, attributes, strings)."""
+    out = []
+    for f in files:
+        lines = open(os.path.join("/repo", f)).read().split("\n")
+        in_tests = False
+        for i, ln in enumerate(lines):
+            if "#[cfg(test)]" in ln:
+                in_tests = True
+            s = ln.strip()
+            if in_tests or s.startswith(("//", "#", "use ", "assert", "debug_assert")) or "0x" in ln or ln.count(",") > 4:
+                continue
+            for m in re.finditer(r"(?<![A-Za-z_0-9.\"])(\d+)(?![A-Za-z_0-9.\"])", ln):
+                if ln.count('"', 0, m.start()) % 2 == 1 or "//" in ln[:m.start()]:
+                    continue
+                out.append((f, i, s, ln[:m.start()] + str(int(m.group(1)) + 1) + ln[m.end():]))
+    return out
+
+
 def candidates(files):
     out = []
     for f in files:
@@ -169,7 +188,7 @@ def main(argv):
     jobs = int(argv[argv.index("--jobs") + 1]) if "--jobs" in argv else 8
     files = argv[argv.index("--files") + 1].split(",") if "--files" in argv else sorted(PLAN)
     out = argv[argv.index("--out") + 1] if "--out" in argv else "/tmp/deletion_sweep.json"
-    cands = op_candidates(files) if "--ops" in argv else neg_candidates(files) if "--neg" in argv else candidates(files)
+    cands = op_candidates(files) if "--ops" in argv else neg_candidates(files) if "--neg" in argv else const_candidates(files) if "--consts" in argv else candidates(files)
     print("%d candidate lines in %d files" % (len(cands), len(files)), flush=True)
     with multiprocessing.Pool(jobs) as pool:
         res = list(pool.imap_unordered(run_one, cands, chunksize=1))
